@@ -28,6 +28,7 @@ Notation s_ctor := (@s_ctor Nm A D zeroA).
 Notation s_clear := (@s_clear Nm A D cast zeroA).
 Notation s_set_dt := (@s_set_dt Nm A D cast zeroA).
 Notation s_set_batch := (@s_set_batch Nm A D zeroA).
+Notation s_apply := (@s_apply Nm A D cast zeroA).
 
 Record conn := mkConn {
   k_delayed : bool;            (* the connection owns a delay parameter (self.delay is not None) *)
@@ -57,14 +58,18 @@ Definition conn_set_syn (c : conn) (s : scomp) : conn := mkConn (k_delayed c) s 
 Definition conn_set_syn_old (c : conn) (s : scomp) : conn := mkConn (k_delayed c) (k_syn c) (Some s).
 Definition conn_clear (c : conn) : conn := mkConn (k_delayed c) (s_clear (conn_synapse c)) (k_stray c).
 
-(* operations: dt / batchsz assignment; construct a synapse (class = the data types of its histories ds) with a
-   configuration and assign it - when the construction raises nothing is assigned *)
+(* operations: dt / batchsz assignment through the connection; an assignment made DIRECTLY on the owned synapse
+   (connection.synapse.dt = v, .delay, .batchsz, .inplace - the other route to the same attributes: the connection keeps
+   no copy of them, its getters read the synapse); construct a synapse (class = the data types of its histories ds)
+   with a configuration and assign it - when the construction raises nothing is assigned *)
 Inductive conn_op := KDt (v : T Nm) | KBatch (v : Z)
+                   | KOnSyn (o : s_op Nm)
                    | KSyn (ds : list D) (dt dl : T Nm) (b : Z) (ip : bool).
 Definition conn_apply (shp : list nat) (c : conn) (o : conn_op) : conn :=
   match o with
   | KDt v => conn_set_dt c v
   | KBatch v => conn_set_batch c v
+  | KOnSyn o => mkConn (k_delayed c) (s_apply (conn_synapse c) o) (k_stray c)
   | KSyn ds dt dl b ip => match s_ctor ds shp dt dl b ip with Some s => conn_set_syn c s | None => c end
   end.
 (* what the user expects: class and configuration of the connection's synapse *)
@@ -73,10 +78,17 @@ Definition conn_expect (cfg : list D * T Nm * T Nm * Z * bool) (o : conn_op) : l
   match o with
   | KDt v => if gtb Nm v (zero Nm) then (ds, v, dl, b, ip) else cfg
   | KBatch v => if (v <=? 0)%Z then cfg else (ds, dt, dl, v, ip)
+  | KOnSyn o' => let '(dt1, dl1, b1, ip1) := s_expect Nm (dt, dl, b, ip) o' in (ds, dt1, dl1, b1, ip1)
   | KSyn ds' dt' dl' b' ip' =>
       if (b' <=? 0)%Z then cfg else if negb (gtb Nm dt' (zero Nm)) then cfg else if negb (geb Nm dl' (zero Nm)) then cfg
       else (ds', dt', dl', b', ip')
   end.
 Definition is_syn_op (o : conn_op) : bool := match o with KSyn _ _ _ _ _ => true | _ => false end.
+(* assignments that reach only the step time and the batch size (through either route) *)
+Definition dt_batch_op (o : conn_op) : bool :=
+  match o with
+  | KDt _ | KBatch _ | KOnSyn (SDt _ _) | KOnSyn (SBatch _ _) => true
+  | _ => false
+  end.
 
 End Conn.
